@@ -52,6 +52,14 @@ func alterations() []alteration {
 			b.Header.TxsRootHash = types.CalculateTxsRootHash(b.Body.Txs)
 			return true
 		}},
+		{"body-last-tx-appended-again-root-and-id-kept", func(b *types.Block) bool {
+			// a tx list of odd length >= 3 and the same list plus a copy of its last tx have the same merkle root
+			if n := len(b.Body.Txs); n < 3 || n%2 == 0 {
+				return false
+			}
+			b.Body.Txs = append(b.Body.Txs, b.Body.Txs[len(b.Body.Txs)-1])
+			return true
+		}},
 		{"id-field-altered-content-kept", func(b *types.Block) bool { b.Hash = rig.FlipBytes(b.Hash); return true }},
 		{"id-of-parent-announced", func(b *types.Block) bool { b.Hash = append([]byte(nil), b.Header.PrevBlockHash...); return true }},
 	}
@@ -94,6 +102,11 @@ func blockIdentityScenario(c *vf.Ctx, si int) {
 		genuine := rig.DecBlock(st.Rsp.Block)
 		// deliver up to three altered copies first (the genuine one arrives afterwards)
 		perm := r.Perm(len(alts))
+		for x, ai := range perm { // when the block allows it, the duplicated-last-tx copy is always among the three
+			if alts[ai].name == "body-last-tx-appended-again-root-and-id-kept" {
+				perm[0], perm[x] = perm[x], perm[0]
+			}
+		}
 		delivered := 0
 		for _, ai := range perm {
 			if delivered >= 3 {
